@@ -43,6 +43,33 @@ type c20Case struct {
 	// TLS: the session runs over STARTTLS (real handshake); the EHLO reply BEFORE the handshake advertises the OPPOSITE
 	// of ESC, the one inside TLS is the one that counts
 	TLS bool `json:"tls,omitempty"`
+	// Addr: the form of the envelope addresses on the messages: 0 = plain dot-atoms; 1 = quoted local parts holding a
+	// blank; 2 = holding a double quote; 3 = holding a backslash; 4 = with display names; 5 = UTF-8 local parts
+	Addr int `json:"addr,omitempty"`
+}
+
+// c20Addr returns what the caller hands to the setter and the mailbox that denotes.
+func c20Addr(form int, who string, i, j int) (input, mailbox string) {
+	dom := map[string]string{"m": "snd.example", "r": "rcp.example"}[who]
+	plain := ""
+	if who == "m" {
+		plain = hx.Sender(i)
+	} else {
+		plain = hx.Rcpt(i, j)
+	}
+	switch form {
+	case 1:
+		return fmt.Sprintf(`"%s%d %d"@%s`, who, i, j, dom), fmt.Sprintf(`%s%d %d@%s`, who, i, j, dom)
+	case 2:
+		return fmt.Sprintf(`"%s%d\"%d"@%s`, who, i, j, dom), fmt.Sprintf(`%s%d"%d@%s`, who, i, j, dom)
+	case 3:
+		return fmt.Sprintf(`"%s%d\\%d"@%s`, who, i, j, dom), fmt.Sprintf(`%s%d\%d@%s`, who, i, j, dom)
+	case 4:
+		return fmt.Sprintf(`"Doe; John (%d)" <%s>`, j, plain), plain
+	case 5:
+		return fmt.Sprintf(`%sü%d-%d@%s`, who, i, j, dom), fmt.Sprintf(`%sü%d-%d@%s`, who, i, j, dom)
+	}
+	return plain, plain
 }
 
 var c20TextNames = []string{"esc-at-start", "plain", "triple-inside", "multiline-esc", "esc-not-at-start", "esc-then-percent-verbs", "bare-esc-without-text", "esc-and-one-character"}
@@ -84,6 +111,9 @@ type c20Expect struct {
 func c20Exec(r *vf.Run, k c20Case) (keys, whats []string) {
 	add := func(key, what string) { keys = append(keys, key); whats = append(whats, what) }
 	caps := []string{"8BITMIME"}
+	if k.Addr == 5 {
+		caps = append(caps, "SMTPUTF8")
+	}
 	if k.ESC {
 		caps = append(caps, "ENHANCEDSTATUSCODES")
 	}
@@ -122,7 +152,8 @@ func c20Exec(r *vf.Run, k c20Case) (keys, whats []string) {
 						code = f.Code2
 					}
 					over[fmt.Sprintf("RCPT#%d.%d", txn, j+1)] = mk(code)
-					e.rcpts = append(e.rcpts, hx.Rcpt(f.Msg, j))
+					_, mbox := c20Addr(k.Addr, "r", f.Msg, j)
+					e.rcpts = append(e.rcpts, mbox)
 					last = code
 				}
 			}
@@ -195,6 +226,22 @@ func c20Exec(r *vf.Run, k c20Case) (keys, whats []string) {
 	msgs := make([]*mail.Msg, k.M)
 	for i := range msgs {
 		msgs[i] = hx.StdMsg(i, k.R, mail.EncodingQP)
+		if k.Addr != 0 {
+			in, _ := c20Addr(k.Addr, "m", i, 0)
+			if err := msgs[i].From(in); err != nil {
+				r.HarnessError("C20 sender %q: %v", in, err)
+				return
+			}
+			var tos []string
+			for j := 0; j < k.R; j++ {
+				in, _ := c20Addr(k.Addr, "r", i, j)
+				tos = append(tos, in)
+			}
+			if err := msgs[i].To(tos...); err != nil {
+				r.HarnessError("C20 recipients %q: %v", tos, err)
+				return
+			}
+		}
 	}
 	var sendErr error
 	pan, pw := vf.Guard(func() {
@@ -388,7 +435,7 @@ func init() {
 	vf.Register(&vf.Check{
 		ID: "C20", Title: "SendError reflects the server's verdict",
 		Run: func(r *vf.Run) {
-			r.SetRule("every reply code 400..599 × 8 reply-text kinds (enhanced code at start / plain / dotted triple inside / multi-line / enhanced code not at start / text with '%' format verbs / the bare enhanced code without any text / the enhanced code and one character; enhanced codes with every subject/detail field of 1..3 digits from {0,1,7,10,77,100,255|509,999}) × position {MAIL, every non-empty subset of 3 RCPTs (mixed codes), DATA, end-of-data, RSET} × failing message 1..3 of a batch of 3 × ENHANCEDSTATUSCODES advertised or not, plus all pairs of failing messages; plus the same failures in a STARTTLS session whose EHLO replies before and inside TLS differ in ENHANCEDSTATUSCODES; plus the same failures on the first of two connections of one Client (connection-per-caller API) whose servers differ in ENHANCEDSTATUSCODES; the oracle is a reference function of the replies the server actually sent; distinct by case tuple")
+			r.SetRule("every reply code 400..599 × 8 reply-text kinds (enhanced code at start / plain / dotted triple inside / multi-line / enhanced code not at start / text with '%' format verbs / the bare enhanced code without any text / the enhanced code and one character; enhanced codes with every subject/detail field of 1..3 digits from {0,1,7,10,77,100,255|509,999}) × position {MAIL, every non-empty subset of 3 RCPTs (mixed codes), DATA, end-of-data, RSET} × failing message 1..3 of a batch of 3 × ENHANCEDSTATUSCODES advertised or not, plus all pairs of failing messages; plus the same failures in a STARTTLS session whose EHLO replies before and inside TLS differ in ENHANCEDSTATUSCODES; plus the same failures on the first of two connections of one Client (connection-per-caller API) whose servers differ in ENHANCEDSTATUSCODES; the oracle is a reference function of the replies the server actually sent; distinct by case tuple; envelope addresses in 6 forms (dot-atom, quoted local part with blank / double quote / backslash, display names, UTF-8) × every rejected-recipient subset")
 			r.Assume("the list of rejected recipients is read from SendError.Error() (no exported accessor)", "a message whose delivery succeeded but whose trailing RSET failed counts as delivered")
 			var cases []c20Case
 			codes := []int{}
@@ -468,6 +515,21 @@ func init() {
 					for _, c1 := range []int{451, 550} {
 						for msg := 0; msg < 3; msg++ {
 							cases = append(cases, c20Case{ESC: esc, M: 3, R: 3, Resend: true, Fails: []c20Fail{{Msg: msg, Pos: p1, Mask: 2, Code: c1, Text: 0}}})
+						}
+					}
+				}
+				// other address forms on the messages (quoted local parts, display names, UTF-8): every recipient subset
+				for addr := 1; addr <= 5; addr++ {
+					for _, pos := range []string{"MAIL", "RCPT", "DATA", "EOD", "RSET"} {
+						for mask := 1; mask < 8; mask++ {
+							if pos != "RCPT" && mask > 1 {
+								continue
+							}
+							for _, code := range []int{450, 550} {
+								for msg := 0; msg < 3; msg++ {
+									cases = append(cases, c20Case{ESC: esc, M: 3, R: 3, Addr: addr, Fails: []c20Fail{{Msg: msg, Pos: pos, Mask: mask, Code: code, Code2: 1001 - code, Text: (mask + msg) % 2}}})
+								}
+							}
 						}
 					}
 				}
